@@ -645,7 +645,15 @@ def m_startswith(I, recv, a, k, node, kind):
                 _raise(I, node, 'TypeError', 'startswith/endswith type mismatch')
             I.may_raise(node, ['TypeError'], 'str/bytes mismatch in %s' % node.func.attr, (recv, a[0]))
     I.emit(node.func.attr, node, {'recv': recv, 'arg': a[0]})
-    return Unk('cond', kinds=['bool'], taint=tj(recv, a[0]), src=('cond', lambda t: None))
+
+    def refine(t, recv=recv, arg=a[0], which=node.func.attr):
+        if isinstance(recv, Unk):
+            recv.facts.add((which, id(arg), bool(t)))
+            if t and is_concrete(arg):
+                recv.facts.add((which + '-const', concrete(arg)))
+            if t:
+                recv.facts.add('truthy')
+    return Unk('cond', kinds=['bool'], taint=tj(recv, a[0]), src=('cond', refine))
 
 
 def m_find(I, recv, a, k, node, kind):
@@ -1083,7 +1091,15 @@ def m_read(I, recv, a, k, node, kind):
         if excs:
             I.may_raise(node, excs, 'read() with unvalidated size', (n,))
     u = Unk('read', kinds=['bytes'], taint=taint_of(recv) | {'INPUT'}, src=('read', recv, n))
+    I.events[-1 - _find_back(I.events, 'stream-read')].data['result'] = u
     return u
+
+
+def _find_back(events, kind):
+    for i in range(len(events)):
+        if events[-1 - i].kind == kind:
+            return i
+    return 0
 
 
 def m_write(I, recv, a, k, node, kind):
@@ -1113,6 +1129,11 @@ def m_close(I, recv, a, k, node, kind):
 
 
 def m_streamother(I, recv, a, k, node, kind):
+    if node.func.attr in ('readline', 'read1', 'peek'):
+        ev = I.effect('stream-read', node, {'stream': recv, 'n': a[0] if a else None, 'method': node.func.attr})
+        u = Unk(node.func.attr, kinds=['bytes'], taint=taint_of(recv) | {'INPUT'}, src=('read', recv, a[0] if a else None))
+        ev.data['result'] = u
+        return u
     I.effect('stream-' + node.func.attr, node, {'stream': recv, 'args': a})
     return Unk(node.func.attr, taint=taint_of(recv) | {'INPUT'}, kinds=['bytes'] if node.func.attr.startswith('read') or node.func.attr == 'peek' else None)
 
